@@ -269,7 +269,7 @@ func runPairs(pairs []*pairJob) {
 
 func c14(args []string) int {
 	run := NewRun("C14", args)
-	run.Sum.Rule = "filter chains through the real proxy and the real streamfilter chain: every chain of one receive filter (3 phases x 8 verdicts) alone and with one send filter (3 verdicts); two-filter chains over all phase pairs x verdict pairs (sampled 1/3 in the quick tier, all in thorough); random chains of 1..5 filters with per-invocation verdict scripts, some with client disconnect / direct-response route / no route / one-way. Verdicts: continue, stop, termination, hijack(+stop), hijack(+continue), direct response, re-match, re-choose. Plus 37 histories in which the downstream sender returns an error from AppendHeaders / AppendData / AppendTrailers: every reply kind (upstream reply headers-only / with body / with trailers, filter hijack per phase, filter direct response, route direct response, no route, no host, reset / overflow / time-out replies, TerminateStream, send-filter answers, retried 503) x every sender call occurring in it. Non-trivial: at least one filter in the chain; distinct by the full description."
+	run.Sum.Rule = "filter chains through the real proxy and the real streamfilter chain: every chain of one receive filter (3 phases x 8 verdicts) alone and with one send filter (3 verdicts); two-filter chains over all phase pairs x verdict pairs (sampled 1/3 in the quick tier, all in thorough); random chains of 1..5 filters with per-invocation verdict scripts, some with client disconnect / direct-response route / no route / one-way. Verdicts: continue, stop, termination, hijack(+stop), hijack(+continue), direct response, re-match, re-choose. Plus 37 histories in which the downstream sender returns an error from AppendHeaders / AppendData / AppendTrailers: every reply kind (upstream reply headers-only / with body / with trailers, filter hijack per phase, filter direct response, route direct response, no route, no host, reset / overflow / time-out replies, TerminateStream, send-filter answers, retried 503) x every sender call occurring in it. Built-in deny filters (ip_access, payload_limit, fault_inject abort) created by their real factories, one factory set per listener configuration: histories of 2..6 requests on routes with / without per-route filter configuration (larger, smaller, unlimited limits; fault switched on / off / restricted to a cluster), body sizes around both limits, source addresses in / out of the lists, each request also run alone on a fresh factory. Non-trivial: at least one filter in the chain; distinct by the full description."
 	specs := genC14(run)
 	specs = append(specs, genSenderErr()...) // the downstream sender fails: cleaned once, every filter destroyed once
 	jobs := make([]*histJob, len(specs))
@@ -301,5 +301,9 @@ func c14(args []string) int {
 			map[string]interface{}{"first": pj.a, "second": pj.b, "rec_first": pj.ra.Rec, "rec_second": pj.rb.Rec})
 	}
 	psh.Close()
+	// the built-in deny filters: histories of several streams of one factory
+	if rc := builtinPart(run); rc != 0 {
+		return rc
+	}
 	return finishProxy(run, jobs, c14Finder, func(sp *Spec) bool { return len(sp.Filters) == 0 })
 }
